@@ -1,2 +1,24 @@
 import Rscp.Model.Interleave
 import Rscp.Gen.Shapes
+namespace Rscp.Model
+
+/-- what agent `i` sees in a global run is its solo run on its own actions -/
+theorem Agent.global_filter_eq_solo {σ α ω : Type} (a : Agent σ α ω) (sched : List (Nat × α)) (i : Nat) :
+    ∀ g : Nat → σ, ((a.global g sched).filter (fun p => p.1 == i)).map (·.2) =
+      a.solo (g i) ((sched.filter (fun p => p.1 == i)).map (·.2)) := by
+  induction sched with
+  | nil => intro g; simp [Agent.global, Agent.solo]
+  | cons hd rest ih =>
+    intro g
+    obtain ⟨j, x⟩ := hd
+    by_cases hji : j = i
+    · subst hji
+      have := ih (fun k => if k = j then (a.step (g j) x).1 else g k)
+      simp [Agent.global, Agent.solo] at this ⊢
+      exact this
+    · have := ih (fun k => if k = j then (a.step (g j) x).1 else g k)
+      have hij : ¬ i = j := fun h => hji h.symm
+      simp [Agent.global, hji, hij] at this ⊢
+      exact this
+
+end Rscp.Model
